@@ -177,7 +177,14 @@ func c02(run *core.Run, replay string) {
 		{"mm-huffman-32", cfg("MM+LZP", "HUFFMAN", 16384, 2, 32), "wav", 90000, S},
 		{"headerless-32", kz.Cfg{Transform: "LZ", Entropy: "ANS0", BlockSize: 4096, Jobs: 2, Checksum: 32, Headerless: true}, "text", 30000, S},
 		{"big-blocks-64", cfg("NONE", "NONE", 1<<20, 4, 64), "periodic", 6 << 20, S},
+		// blocks the encoder stores in copy mode: streams and tail blocks of 1..15 bytes, incompressible blocks with the skip option
+		{"tiny-9B-32", cfg("LZ", "HUFFMAN", 1024, 1, 32), "text", 9, S},
+		{"tail-15B-64", cfg("BWT", "ANS0", 1024, 2, 64), "text", 2*1024 + 15, S},
+		{"tail-1B-32", cfg("TEXT", "FPAQ", 4096, 3, 32), "html", 3*4096 + 1, S},
+		{"skip-incompressible-32", kz.Cfg{Transform: "LZ", Entropy: "ANS0", BlockSize: 4096, Jobs: 2, Checksum: 32, SkipBlocks: true}, "random", 20000, S},
+		{"skip-magic-64", kz.Cfg{Transform: "BWT", Entropy: "HUFFMAN", BlockSize: 8192, Jobs: 2, Checksum: 64, SkipBlocks: true}, "magicmix", 30000, S},
 	}
+	exhaustiveToo := map[string]bool{"tiny-9B-32": true, "tail-15B-64": true, "tail-1B-32": true}
 	if run.Thorough() {
 		for i, t := range kz.Transforms {
 			recs = append(recs, recipe{"thorough-" + t, cfg(t, kz.Entropies[i%9], 4096, uint(1+i%3), []uint{32, 64}[i%2]), []string{"text", "dna", "runs", "elfx86", "cyrillic"}[i%5], 30000, S + int64(i)})
@@ -202,9 +209,12 @@ func c02(run *core.Run, replay string) {
 			continue
 		}
 		nb := len(ps.Blocks)
-		if ri < 2 {
-			// exhaustive: every payload bit of every block
-			for _, b := range ps.Blocks {
+		if ri < 2 || exhaustiveToo[recs[ri].Name] {
+			// exhaustive: every payload bit of every block (for the tail recipes: of the stored tail block)
+			for bi, b := range ps.Blocks {
+				if ri >= 2 && bi != nb-1 {
+					continue
+				}
 				for bit := 0; bit < b.PayloadLen; bit++ {
 					cases = append(cases, &corruptCase{R: recs[ri], Muts: []mutOp{{"flip", b.Index, bit, 0}}, Jobs: uint(1 + 2*(bit%2)), ReadSz: rsz[bit%len(rsz)]})
 				}
